@@ -144,11 +144,17 @@ func genEdits(r *rand.Rand, g *SpecGen, marker string, nonEmpty bool) specs.Cont
 				case len(g.HostNodes) > 0 && chance(r, 60):
 					// info to be taken from a host node
 					h := g.HostNodes[r.Intn(len(g.HostNodes))]
-					switch r.Intn(4) {
+					switch r.Intn(6) {
 					case 0:
 						d.HostPath = h.Path
 					case 1:
 						d.HostPath, d.Type = h.Path, h.Type
+					case 2:
+						// the numbers given, the type left to the host node
+						d.HostPath, d.Major, d.Minor = h.Path, int64(1+r.Intn(250)), int64(r.Intn(250))
+					case 3:
+						// only a minor given: type and numbers left to the host node
+						d.HostPath, d.Minor = h.Path, int64(1+r.Intn(250))
 					default:
 						// the usual case: container path = host path, nothing else given
 						d.Path = h.Path
